@@ -63,3 +63,17 @@ pub open spec fn tag_named(b: Seq<u8>, t: int, name: Seq<u8>) -> bool {
 pub open spec fn first_named(b: Seq<u8>, name: Seq<u8>, t: int) -> bool {
     0 <= t < t_count(b) && tag_named(b, t, name) && (forall|u: int| 0 <= u < t ==> !#[trigger] tag_named(b, u, name))
 }
+// the value (second string) of the FIRST tag named `name`, if that tag has one
+pub open spec fn tag_value(b: Seq<u8>, name: Seq<u8>) -> Option<Seq<u8>> {
+    if exists|t: int| first_named(b, name, t) {
+        let t = choose|t: int| first_named(b, name, t);
+        if t_nstr(b, t) >= 2 { Some(s_bytes(b, t, 1)) } else { None }
+    } else { None }
+}
+pub proof fn lemma_first_named_unique(b: Seq<u8>, name: Seq<u8>, t1: int, t2: int)
+    requires first_named(b, name, t1), first_named(b, name, t2)
+    ensures t1 == t2
+{
+    if t1 < t2 { assert(tag_named(b, t1, name)); } else if t2 < t1 { assert(tag_named(b, t2, name)); }
+}
+pub open spec fn opt_slice_view(o: Option<&[u8]>) -> Option<Seq<u8>> { match o { Some(s) => Some(s@), None => None } }
